@@ -81,8 +81,16 @@ class TopoBase(Contract):
 
         def set_add(I, recv, args, kwargs):
             return I.set_method(recv, 'add', args, kwargs)
+
+        def inform(I, recv, args, kwargs):
+            # percolation of a loop / mode through the graph (own contracts: c_loop.py): changes no link; it raises ValueError
+            # when the value conflicts with one that is already set somewhere in the pipeline
+            if I.branch(z3.Bool(sym.fresh_name('conflicting_loop_or_mode'))):
+                raise PyRaise(VExc('ValueError'))
+            return NONE
         return {'Stream._add_upstream': add_upstream, 'Stream._remove_upstream': remove_upstream,
-                'Stream._add_downstream': add_downstream, 'Stream._remove_downstream': remove_downstream}
+                'Stream._add_downstream': add_downstream, 'Stream._remove_downstream': remove_downstream,
+                'Stream._inform_loop': inform, 'Stream._inform_asynchronous': inform}
 
     def spec_funcs(self):
         def up_has(I, d, u):
@@ -128,7 +136,7 @@ class StreamConnect(TopoBase):
 
         def dispatch(name):
             def f(I, recv, args, kwargs):
-                if isinstance(recv, VObj):
+                if isinstance(recv, VObj) and not name.startswith('Stream._inform'):
                     rel, node = I.index.function(name)
                     return I.run_function(sym.VFunc(name, node, bound=recv), args, kwargs)
                 return base[name](I, recv, args, kwargs)
@@ -624,6 +632,10 @@ class SinkDestroyNotRegistered(SinkInit):
         self.pre_state = I.st.snapshot()
         I.st.ghost['_pre'] = (self.pre_state, self.pre_args)
         return r[0], [], {}
+
+    def cover(self, outcomes):
+        # on the current tree this call ends in KeyError (after the links have been removed): any exit is a reached exit here
+        return [('some path reaches an exit of the unit', len(outcomes) > 0)]
 
     def clauses(self):
         return [Clause('C15.destroy_detaches_the_sink_even_if_it_is_not_registered', ['C15'], when='any',
